@@ -508,3 +508,57 @@ Theorem C05_winner_tags_without_accept : forall D q,
   winner_tags D q = map (fun v => stag (r_tag v)) (spec_winners view_classifier (all_regs D) (main_request q)).
 Proof. exact winner_tags_without_accept. Qed.
 Print Assumptions C05_winner_tags_without_accept.
+
+(* ---------------------------------------------------------------- proof round: judge clause J4 at registration level
+   (Proofs/C05_j4.v, C05_j4gen.v) *)
+Require Import Verif.Proofs.C05_j4 Verif.Proofs.C05_j4gen.
+
+(* judge_sound, clause J4 ("never blocked otherwise"), registration level: for EVERY registry state, derived-view table,
+   decision table and request, the executable clause -- every HTTPForbidden that reaches the exception-view tween, and an
+   HTTPForbidden that leaves the application, directly follows a refused check or the callable of a view whose body raises it,
+   or is the main handler's own HTTPForbidden re-raised -- accepts the whole trace of the request (the source of an
+   HTTPForbidden is read from the table D; the program-text version j4 additionally needs stmt_behave = body of D) *)
+Theorem C05_judge_j4_sound_D : forall R D tb q,
+  j4D D (snd (router_call R D tb q)) None false (fst (router_call R D tb q)) = true.
+Proof. exact j4D_sound. Qed.
+Print Assumptions C05_judge_j4_sound_D.
+
+(* the view-execution core never writes a Raised event: a Raised e in the log is the one event between the main handler's
+   trace and the exception view's trace, and the main handler raised exactly e *)
+Theorem C05_raised_only_between : forall R D tb q i e,
+  nth_error (fst (router_call R D tb q)) i = Some (Raised e) ->
+  exists tr1 tr2, fst (router_call R D tb q) = tr1 ++ Raised e :: tr2 /\ i = length tr1 /\ nr tr1 /\ nr tr2
+                  /\ handle_request R D tb q = (tr1, Raise e).
+Proof. exact raised_only_between. Qed.
+Print Assumptions C05_raised_only_between.
+
+(* the same clause, and J1 / J2, about the request path REGENERATED from the source *)
+Theorem C05_gen_judge_j4_sound_D : forall R D tb q,
+  j4D D (snd (gen_router R D tb q)) None false (fst (gen_router R D tb q)) = true.
+Proof. exact gen_j4D_sound. Qed.
+Print Assumptions C05_gen_judge_j4_sound_D.
+
+Theorem C05_gen_judge_j2_sound : forall R D tb q,
+  let tr := fst (gen_router R D tb q) in
+  let fin := snd (gen_router R D tb q) in
+  j2 (proj_final fin) false false (proj_trace tr) = 0%N \/ j2 (proj_final fin) false false (proj_trace tr) = 4%N.
+Proof. exact gen_judge_j2_sound. Qed.
+Print Assumptions C05_gen_judge_j2_sound.
+
+Theorem C05_gen_judge_j1_sound : forall irq ier iw prog tb q,
+  prog_ok prog ->
+  let s := commit (init_state irq ier iw) prog in
+  let tr := fst (gen_router (cs_R s) (cs_D s) tb q) in
+  variant_okb prog tr = true -> j1 prog [] (proj_trace tr) = true.
+Proof. exact gen_judge_j1_sound. Qed.
+Print Assumptions C05_gen_judge_j1_sound.
+
+(* non-vacuity: the clause rejects an HTTPForbidden after nothing / after an open body that returns, accepts it after a
+   body that raises it *)
+Example C05_ex_j4D_rejects :
+  j4D [] (Resp 4500%N) None false [Raised EForbidden] = false
+  /\ j4D [(2%N, mkD (mkReg (mkSlot 0%N 0%N 0%N []) 2%N [] 0%Z [] None false) None [] false (Plain BReturn) false)]
+         (Resp 4500%N) None false [Body 2%N (CRes 0%N); Raised EForbidden] = false
+  /\ j4D [(2%N, mkD (mkReg (mkSlot 0%N 0%N 0%N []) 2%N [] 0%Z [] None false) None [] false (Plain (BRaise EForbidden)) false)]
+         (Resp 4500%N) None false [Body 2%N (CRes 0%N); Raised EForbidden] = true.
+Proof. exact ex_j4D_rejects. Qed.
